@@ -19,6 +19,8 @@ CONSTANTS
   DamageKinds = {}
   CrcQuarantinesBlock = FALSE
   MinOpsBeforeCrash = 5
+  WithPersistCalls = TRUE
+  WithNoops = FALSE
 INIT MCInit
 NEXT MCNext
 INVARIANTS VerdictOk Refines BatchAtomic BufInv
